@@ -62,8 +62,36 @@ Section HashRoundtrip.
   Qed.
 
   (* ---------------------------------------------------------------- C12: the state tracker *)
-  Lemma import_in_use f now b rs : i_l b = InUse -> imp_import H pre f now b rs = (b, Some IENotInitializing).
+  Lemma import_in_use f now b rs : i_l b = InUse -> imp_import H pre f now b rs = (with_cache b InUse, Some IENotInitializing).
   Proof. intros E. unfold imp_import. rewrite E. reflexivity. Qed.
+
+  (* the ROW decides, whatever the facade had cached (a facade built before the first write still holds `initializing`) *)
+  Lemma import_row_decides f now b c0 rs : i_l b = InUse ->
+    imp_import H pre f now (with_cache b c0) rs = (with_cache b InUse, Some IENotInitializing).
+  Proof. intros E. unfold imp_import, with_cache. cbn [i_l]. rewrite E. reflexivity. Qed.
+
+  (* coherence (the cache never runs ahead of the row) is kept by every request *)
+  Lemma coherent_init : coherent i_init.
+  Proof. intros D; discriminate D. Qed.
+
+  Lemma import_coherent f now b rs : coherent (fst (imp_import H pre f now b rs)).
+  Proof.
+    unfold imp_import, coherent. destruct (i_l b) eqn:E.
+    - destruct (imp_loop H pre f now (last_log_id (i_s b)) (i_s b, i_tab b) rs) as [st' e]. cbn. intros D; discriminate D.
+    - cbn. intros _. exact E.
+  Qed.
+
+  Lemma single_coherent f now b o : coherent b -> coherent (fst (w_single H pre f now b o)).
+  Proof.
+    unfold w_single, coherent. intros C. destruct (step f now _ o) as [s' r|]; cbn [fst i_l i_c]; [|exact C].
+    destruct (i_c b) eqn:Ec; [|intros _; exact (C eq_refl)]. destruct (committed o r); [reflexivity | intros D; discriminate D].
+  Qed.
+
+  Lemma atomic_coherent f now b os : coherent b -> coherent (fst (w_atomic H pre f now b os)).
+  Proof.
+    unfold w_atomic, coherent. intros C. destruct (atomic_run f now _ false false os) as [[[s' rs] ab] er].
+    destruct (er || ab); cbn [fst i_l i_c]; [exact C|]. destruct (i_c b); [intros D; discriminate D | exact C].
+  Qed.
 
   Lemma fold_max_ge (ls : list log) : forall m, (forall x, m = Some x ->
       exists y, fold_left (fun m l => match m with Some x => Some (Z.max x (l_id l)) | None => Some (l_id l) end) ls m = Some y /\ x <= y) /\
@@ -111,14 +139,17 @@ Section HashRoundtrip.
   Qed.
 
   (* a committed write through the facade leaves the ledger in-use *)
-  Lemma single_commit_in_use f now b o b' r : w_single H pre f now b o = (b', Some r) -> committed o r = true -> i_l b' = InUse.
+  Lemma single_commit_in_use f now b o b' r : coherent b -> w_single H pre f now b o = (b', Some r) -> committed o r = true -> i_l b' = InUse.
   Proof.
-    unfold w_single. destruct (step f now _ o) as [s' r0|]; [|discriminate]. intros E C. inversion E; subst; clear E. simpl.
-    destruct (i_l b); [rewrite C|]; reflexivity.
+    unfold w_single. intros Co. destruct (step f now _ o) as [s' r0|]; [|discriminate]. intros E C. inversion E; subst; clear E. cbn [i_l].
+    destruct (i_c b) eqn:Ec; [rewrite C; reflexivity | exact (Co Ec)].
   Qed.
 
   Lemma single_keeps_in_use f now b o : i_l b = InUse -> i_l (fst (w_single H pre f now b o)) = InUse.
-  Proof. intros E. unfold w_single. rewrite E. destruct (step f now (i_s b) o); simpl; reflexivity. Qed.
+  Proof.
+    intros E. unfold w_single. destruct (step f now _ o) as [s' r|]; cbn [fst i_l]; [|exact E].
+    destruct (match i_c b with Initializing => committed o r | InUse => false end); [reflexivity | exact E].
+  Qed.
 
   Lemma atomic_unrepaired_keeps_lstate f now b os : i_l (fst (w_atomic_unrepaired H pre f now b os)) = i_l b.
   Proof.
@@ -127,16 +158,17 @@ Section HashRoundtrip.
 
   Lemma atomic_keeps_in_use f now b os : i_l b = InUse -> i_l (fst (w_atomic H pre f now b os)) = InUse.
   Proof.
-    intros E. unfold w_atomic. destruct (atomic_run f now _ false false os) as [[[s' rs] ab] er]. destruct (er || ab); [exact E | reflexivity].
+    intros E. unfold w_atomic. destruct (atomic_run f now _ false false os) as [[[s' rs] ab] er]. destruct (er || ab); cbn [fst i_l]; [exact E|].
+    destruct (i_c b); [reflexivity | exact E].
   Qed.
 
   (* since the repair: an atomic bulk either commits, and the ledger is in-use, or has no effect on tables, hashes, state *)
-  Lemma atomic_flips_or_no_effect f now b os b' out : w_atomic H pre f now b os = (b', out) ->
+  Lemma atomic_flips_or_no_effect f now b os b' out : coherent b -> w_atomic H pre f now b os = (b', out) ->
     i_l b' = InUse \/ (i_l b' = i_l b /\ tables (i_s b') = tables (i_s b) /\ i_tab b' = i_tab b).
   Proof.
-    unfold w_atomic. destruct (atomic_run f now _ false false os) as [[[s' rs] ab] er]. destruct (er || ab); intros E; inversion E; subst.
+    unfold w_atomic. intros Co. destruct (atomic_run f now _ false false os) as [[[s' rs] ab] er]. destruct (er || ab); intros E; inversion E; subst.
     - right. repeat split; reflexivity.
-    - left. reflexivity.
+    - left. cbn [i_l]. destruct (i_c b) eqn:Ec; [reflexivity | exact (Co Ec)].
   Qed.
 
   Lemma run_seq_in_use f now (os : list op) : forall b err, i_l b = InUse ->
@@ -183,13 +215,16 @@ Section HashRoundtrip.
   Qed.
 
   (* the log a committed first write appends carries an id above every imported log id, and the ledger becomes in-use *)
+  Lemma coherent_initializing b : coherent b -> i_l b = Initializing -> i_c b = Initializing.
+  Proof. unfold coherent. intros C E. destruct (i_c b); [reflexivity|]. rewrite (C eq_refl) in E. discriminate E. Qed.
+
   Theorem single_after_import_fresh_log f now b o b' lid tid :
-    i_l b = Initializing -> o_dry o = false -> w_single H pre f now b o = (b', Some (ROk lid tid false)) ->
+    coherent b -> i_l b = Initializing -> o_dry o = false -> w_single H pre f now b o = (b', Some (ROk lid tid false)) ->
     i_l b' = InUse /\ (forall l, In l (s_logs (i_s b)) -> l_id l < lid) /\
     exists l, s_logs (i_s b') = s_logs (i_s b) ++ [l] /\ l_id l = lid.
   Proof.
-    intros El Hd E. unfold w_single in E. rewrite El in E.
-    destruct (step f now (resync (i_s b)) o) as [s' r|] eqn:S; [|discriminate]. inversion E; subst; clear E. simpl.
+    intros Co El Hd E. unfold w_single in E. rewrite El, (coherent_initializing b Co El) in E.
+    destruct (step f now (resync (i_s b)) o) as [s' r|] eqn:S; [|discriminate]. inversion E; subst; clear E. cbn [i_l i_s].
     unfold committed. rewrite Hd. split; [reflexivity|].
     destruct (step_commit_one_log f now (resync (i_s b)) o s' lid tid Hd S) as [l (A & B0 & _ & _ & _ & _ & C & _)].
     split.
@@ -221,11 +256,11 @@ Section HashRoundtrip.
   Qed.
 
   Theorem single_after_import_next_ids f now b o b' lid tid :
-    i_l b = Initializing -> o_dry o = false -> w_single H pre f now b o = (b', Some (ROk lid tid false)) ->
+    coherent b -> i_l b = Initializing -> o_dry o = false -> w_single H pre f now b o = (b', Some (ROk lid tid false)) ->
     (forall m, max_id l_id (s_logs (i_s b)) = Some m -> lid = m + 1) /\
     (forall t m, tid = Some t -> max_id t_id (s_txs (i_s b)) = Some m -> t = m + 1).
   Proof.
-    intros El Hd E. unfold w_single in E. rewrite El in E.
+    intros Co El Hd E. unfold w_single in E. rewrite El, (coherent_initializing b Co El) in E.
     destruct (step f now (resync (i_s b)) o) as [s' r|] eqn:S; [|discriminate]. inversion E; subst; clear E.
     split.
     - intros m Em. destruct (step_commit_one_log f now (resync (i_s b)) o s' lid tid Hd S) as [l (_ & _ & _ & _ & _ & _ & C & _)].
@@ -235,40 +270,41 @@ Section HashRoundtrip.
 
   (* ---------------------------------------------------------------- C12: a non-atomic bulk with an accepted element *)
   Lemma run_seq_commit_in_use f now (os : list op) : forall b err b' rs e',
-    Forall (fun o => o_dry o = false) os ->
+    coherent b -> Forall (fun o => o_dry o = false) os ->
     run_seq (w_elem H pre f now) bres_ok BCancelled false b err os = (b', rs, e') ->
     (exists lid tid hit, In (BRes (Some (ROk lid tid hit))) rs) -> i_l b' = InUse.
   Proof.
-    induction os as [|o os IH]; intros b err b' rs e' Hd E [lid [tid [hit Hin]]].
+    induction os as [|o os IH]; intros b err b' rs e' Co Hd E [lid [tid [hit Hin]]].
     - simpl in E. inversion E; subst. destruct Hin.
     - inversion Hd as [|? ? Ho Hd']; subst. simpl in E. destruct err; simpl in E.
       + destruct (run_seq (w_elem H pre f now) bres_ok BCancelled false b true os) as [[s1 rs1] e1] eqn:R. inversion E; subst.
-        destruct Hin as [D|Hin]; [discriminate D|]. eapply IH; [exact Hd' | exact R | do 3 eexists; exact Hin].
+        destruct Hin as [D|Hin]; [discriminate D|]. eapply IH; [exact Co | exact Hd' | exact R | do 3 eexists; exact Hin].
       + unfold w_elem at 1 in E. destruct (w_single H pre f now b o) as [b1 r1] eqn:W.
         destruct (run_seq (w_elem H pre f now) bres_ok BCancelled false b1 (negb (bres_ok (BRes r1))) os) as [[s1 rs1] e1] eqn:R. inversion E; subst.
         destruct Hin as [D|Hin].
         * inversion D; subst. assert (I1 : i_l b1 = InUse).
-          { eapply single_commit_in_use; [exact W|]. unfold committed. rewrite Ho. reflexivity. }
+          { eapply single_commit_in_use; [exact Co | exact W|]. unfold committed. rewrite Ho. reflexivity. }
           pose proof (run_seq_in_use f now os b1 (negb (bres_ok (BRes (Some (ROk lid tid hit))))) I1) as G. rewrite R in G. exact G.
-        * eapply IH; [exact Hd' | exact R | do 3 eexists; exact Hin].
+        * eapply IH; [|exact Hd' | exact R | do 3 eexists; exact Hin].
+          pose proof (single_coherent f now b o Co) as Co1. rewrite W in Co1. exact Co1.
   Qed.
 
   Theorem bulk_commit_then_import_rejected f now b os b' rs now' rs' :
-    Forall (fun o => o_dry o = false) os -> w_bulk H pre f now b os = (b', rs) ->
+    coherent b -> Forall (fun o => o_dry o = false) os -> w_bulk H pre f now b os = (b', rs) ->
     (exists lid tid hit, In (BRes (Some (ROk lid tid hit))) rs) ->
-    imp_import H pre f now' b' rs' = (b', Some IENotInitializing).
+    imp_import H pre f now' b' rs' = (with_cache b' InUse, Some IENotInitializing).
   Proof.
-    intros Hd E Hin. apply import_in_use. unfold w_bulk, run_bulk in E.
+    intros Co Hd E Hin. apply import_in_use. unfold w_bulk, run_bulk in E.
     destruct (run_seq (w_elem H pre f now) bres_ok BCancelled false b false os) as [[s1 rs1] e1] eqn:R. simpl in E. inversion E; subst.
-    eapply run_seq_commit_in_use; [exact Hd | exact R | exact Hin].
+    eapply run_seq_commit_in_use; [exact Co | exact Hd | exact R | exact Hin].
   Qed.
   (* ---------------------------------------------------------------- since the repair: an atomic bulk of one element on the
      still-initializing copy IS the facade write of that element (same state, same hash column, in-use, same ids) *)
   Theorem atomic_single_element f now b o s' lid tid :
-    i_l b = Initializing -> o_dry o = false -> step f now (resync (i_s b)) o = SR s' (ROk lid tid false) ->
-    w_atomic H pre f now b [o] = (fst (w_single H pre f now b o), AResults [ARes (BRes (Some (ROk lid tid false)))]).
+    coherent b -> i_l b = Initializing -> o_dry o = false -> step f now (resync (i_s b)) o = SR s' (ROk lid tid false) ->
+    w_atomic H pre f now b [o] = (with_cache (fst (w_single H pre f now b o)) Initializing, AResults [ARes (BRes (Some (ROk lid tid false)))]).
   Proof.
-    intros El Hd S. unfold w_atomic, w_single. rewrite El. cbn [atomic_run]. rewrite S.
+    intros Co El Hd S. unfold w_atomic, w_single. rewrite El, (coherent_initializing b Co El). cbn [atomic_run]. rewrite S.
     destruct (step_commit_one_log f now (resync (i_s b)) o s' lid tid Hd S) as [l (_ & _ & _ & _ & _ & _ & C & _)].
     assert (Htx : tx_collides (resync (i_s b)) (ROk lid tid false) = false).
     { unfold tx_collides. destruct tid as [t|]; [|reflexivity]. rewrite (step_tx_id f now _ o s' lid t S).
